@@ -546,6 +546,11 @@ func propC08(c *Ctx, r *Report) {
 	r.rule("C08/amount-range", 2, "input amounts are bounded by MaxInt64 for every kind of transaction")
 	ruleInputAmountBound(c, r, "C08/amount-range")
 	ruleU64Params(c, r, "C08/uint64-sql-params", c.RSync, 5)
+	// a second copy of an entry inside one block is recognised before it reaches the uniquely keyed history tables
+	ruleReplayGuard(c, r, "C08/replay-guard")
+	ruleReplaySameTx(c, r, cat, "C08/replay-guard")
+	// transfer amounts cannot wrap past the input (a wrapped sum lets an amount >= 2^63 reach a statement)
+	ruleValidateBounds(c, r, "C08/transfer-sum-exact")
 	r.rule("C08/convert-verdicts", 2, "a Convert error that is propagated was ruled out by an identical, dropped pre-check")
 	convertVerdicts(c, r, "C08/convert-verdicts")
 
